@@ -699,7 +699,7 @@ def solve_all(obligations, budget=10, workers=16, tmpdir=None, portfolio=None):
         for ob in late:
             ob.extra["phase2_runs"] = ob.extra.get("solver_runs")
             ob.status, ob.reason = None, None
-        st3 = _solve_phase(late, budget * 5, workers, tmpdir, RETRY_LADDER)
+        st3 = _solve_phase(late, min(budget * 5, 60), workers, tmpdir, RETRY_LADDER)
     return {"solve_wall_s": round(st1["solve_wall_s"] + st2["solve_wall_s"] + st3["solve_wall_s"], 2), "queries": st1["queries"] + st2["queries"] + st3["queries"],
             "phase2_obligations": len(todo), "phase3_obligations": len(late) if 0 < len(late) <= 12 else 0}
 
